@@ -1,9 +1,13 @@
 (* C05 — keep-balance never trashes a needed or too-new replica.
-   Executable model of services/keep-balance/balance.go: cleanupMounts, setupLookupTables,
-   balanceBlock (slot list, per-class sort with the 5-key comparator, trySlot with
-   wantSrv/wantMnt/wantDev/protMnt/replWant/replProt, the two passes, `underreplicated`,
-   unsafeToDelete keyed by mtime, the final widening of `want`, emission of Trash/Pull/lost) and
-   of what change_set.go carries (mount, observed mtime / target mount, source service).
+   Executable model of services/keep-balance/balance.go AS REPAIRED by the fix: commits 4181588 (F1/F10),
+   0c179f4 (F12), b66ed86 (F8): cleanupMounts, setupLookupTables, balanceBlock (slot list, per-class sort
+   with the 5-key comparator, trySlot with wantSrv/wantMnt/wantDev/protMnt/protDev/replWant/replProt -
+   only replicas on mounts of the class are protected, a non-blank device once -, the two passes, the
+   `safe` loop counting a non-blank device once (safeDev), `underreplicated` (also set by a desired
+   class that no mount offers), unsafeToDelete keyed by mtime incl. the replicas on wanted or protected
+   devices, the final widening of `want`, emission of Trash/Pull/lost incl. "no replica and desired > 0")
+   and of what change_set.go carries (mount, observed mtime / target mount, source service).
+   The algorithm before the repairs is kept in model/C05_old_model.v (regression witness).
 
    Identities: mounts, services, devices and storage classes are small naturals handed out by the
    harness (Go uses pointer identity for mounts/services and strings for devices/classes).
@@ -84,75 +88,11 @@ Record acc := {
 
 Definition set_want (s : slot) : slot := {| smnt := smnt s; srepl := srepl s; swant := true |}.
 
-(* trySlot(i): new accumulator, new slots[i], and the returned "done" *)
-Definition try_slot (desired : nat) (a : acc) (s : slot) : acc * slot * bool :=
-  let m := smnt s in
-  if mem (mid m) (wantMnt a) || (negb (dev m =? 0) && mem (dev m) (wantDev a)) then (a, s, false)
-  else
-    let a1 :=
-      match srepl s with
-      | Some mt =>
-        if (replProt a <? desired) && negb (mem (mid m) (protMnt a)) then
-          {| wantSrv := wantSrv a; wantMnt := wantMnt a; wantDev := wantDev a;
-             protMnt := add (mid m) (protMnt a); replWant := replWant a;
-             replProt := replProt a + mrepl m; unsafe := add mt (unsafe a) |}
-        else a
-      | None => a
-      end in
-    if (replWant a1 <? desired) && (has s || negb (mro m)) then
-      let a2 := {| wantSrv := add (msrv m) (wantSrv a1);
-                   wantMnt := add (mid m) (wantMnt a1);
-                   wantDev := if dev m =? 0 then wantDev a1 else add (dev m) (wantDev a1);
-                   protMnt := protMnt a1; replWant := replWant a1 + mrepl m;
-                   replProt := replProt a1; unsafe := unsafe a1 |} in
-      (a2, set_want s, (desired <=? replProt a2) && (desired <=? replWant a2))
-    else (a1, s, (desired <=? replProt a1) && (desired <=? replWant a1)).
-
-(* one `for i := 0; i < len(slots) && !done; i++` loop; distinct = "skip servers already used".
-   Returns the accumulator, done, and the slots with their updated want flags (same order). *)
-Fixpoint pass (distinct : bool) (desired : nat) (a : acc) (done : bool) (l : list slot) : acc * bool * list slot :=
-  match l with
-  | [] => (a, done, [])
-  | s :: r =>
-    if done then (a, done, l)
-    else if distinct && mem (msrv (smnt s)) (wantSrv a) then
-      let '(a', dn, r') := pass distinct desired a done r in (a', dn, s :: r')
-    else
-      let '(a1, s1, d1) := try_slot desired a s in
-      let '(a', dn, r') := pass distinct desired a1 d1 r in (a', dn, s1 :: r')
-  end.
-
-(* the `safe` loop (stops as soon as safe >= desired) *)
-Fixpoint safe_count (c desired : nat) (l : list slot) (safe : nat) : nat :=
-  match l with
-  | [] => safe
-  | s :: r =>
-    if negb (has s) || negb (inclass dflt c (smnt s)) then safe_count c desired r safe
-    else let safe' := safe + mrepl (smnt s) in
-         if desired <=? safe' then safe' else safe_count c desired r safe'
-  end.
-
-(* "Avoid deleting wanted replicas from devices that are mounted on multiple servers" *)
-Definition protect_wanted_devs (wd : list nat) (l : list slot) (uns : list nat) : list nat :=
-  fold_left (fun u s => match srepl s with
-                        | Some mt => if negb (dev (smnt s) =? 0) && mem (dev (smnt s)) wd then add mt u else u
-                        | None => u end) l uns.
-
 Definition acc0 (uns : list nat) : acc :=
   {| wantSrv := []; wantMnt := []; wantDev := []; protMnt := []; replWant := 0; replProt := 0; unsafe := uns |}.
 
 (* state carried from class to class: slots (order and want flags), unsafeToDelete, underreplicated *)
 Definition cstate := (list slot * list nat * bool)%type.
-
-(* body of `for _, class := range bal.classes` *)
-Definition do_class (c desired : nat) (st : cstate) : cstate :=
-  let '(sl, uns, under) := st in
-  if desired =? 0 then st else
-  let sorted := isort c sl in
-  let '(a1, d1, l1) := pass true desired (acc0 uns) false sorted in
-  let '(a2, _, l2) := pass false desired a1 d1 l1 in
-  let under' := if under then true else safe_count c desired l2 0 <? desired in
-  (l2, protect_wanted_devs (wantDev a2) l2 (unsafe a2), under').
 
 Inductive change := Trash (m : nat) (mt : nat) | Pull (m : nat) (from : nat).
 
@@ -169,9 +109,6 @@ Definition mkslot (replicas : list (nat * nat)) (m : mnt) : slot :=
 Fixpoint lookup (d : list (nat * nat)) (c : nat) : nat :=
   match d with [] => 0 | (k, v) :: r => if k =? c then v else lookup r c end.
 
-Definition run_classes (classes : list nat) (desired : list (nat * nat)) (sl0 : list slot) : cstate :=
-  fold_left (fun st c => do_class c (lookup desired c) st) classes (sl0, [], false).
-
 (* "Don't trash (1) any replicas of an underreplicated block ... or (2) any replicas whose Mtimes
    are identical to needed replicas" *)
 Definition widen (under : bool) (uns : list nat) (s : slot) : slot :=
@@ -180,21 +117,92 @@ Definition widen (under : bool) (uns : list nat) (s : slot) : slot :=
   | None => s
   end.
 
-Definition final_slots (mounts : list mnt) (replicas : list (nat * nat)) (classes : list nat)
-           (desired : list (nat * nat)) : list slot :=
-  let '(sl, uns, under) := run_classes classes desired (map (mkslot replicas) mounts) in
-  map (widen under uns) sl.
-
 Definition emit (norepl : bool) (from : nat) (s : slot) : list change :=
   match srepl s with
   | Some mt => if negb (swant s) && (mt <? minMtime) then [Trash (mid (smnt s)) mt] else []
   | None => if swant s && negb norepl && negb (mro (smnt s)) then [Pull (mid (smnt s)) from] else []
   end.
 
-(* mounts: the services' mounts after cleanupMounts/setupLookupTables; allmounts: every mount
-   known (only used to name the service of Replicas[0], the pull source);
-   replicas: blk.Replicas in order (mount, mtime); desired: blk.Desired.
-   Result: the Trash/Pull requests added to the change sets, and balanceResult.lost. *)
+(* ---------- the repaired algorithm ---------- *)
+(* acc + protDev *)
+Definition acc2 := (acc * list nat)%type.
+
+Definition try_slot (c desired : nat) (ap : acc2) (s : slot) : acc2 * slot * bool :=
+  let '(a, pd) := ap in
+  let m := smnt s in
+  if mem (mid m) (wantMnt a) || (negb (dev m =? 0) && mem (dev m) (wantDev a)) then (ap, s, false)
+  else
+    let '(a1, pd1) :=
+      match srepl s with
+      | Some mt =>
+        if (replProt a <? desired) && negb (mem (mid m) (protMnt a)) && negb (nz (dev m) && mem (dev m) pd) &&
+           inclass dflt c m then
+          ({| wantSrv := wantSrv a; wantMnt := wantMnt a; wantDev := wantDev a;
+              protMnt := add (mid m) (protMnt a); replWant := replWant a;
+              replProt := replProt a + mrepl m; unsafe := add mt (unsafe a) |},
+           if nz (dev m) then add (dev m) pd else pd)
+        else (a, pd)
+      | None => (a, pd)
+      end in
+    if (replWant a1 <? desired) && (has s || negb (mro m)) then
+      let a2 := {| wantSrv := add (msrv m) (wantSrv a1);
+                   wantMnt := add (mid m) (wantMnt a1);
+                   wantDev := if dev m =? 0 then wantDev a1 else add (dev m) (wantDev a1);
+                   protMnt := protMnt a1; replWant := replWant a1 + mrepl m;
+                   replProt := replProt a1; unsafe := unsafe a1 |} in
+      ((a2, pd1), set_want s, (desired <=? replProt a2) && (desired <=? replWant a2))
+    else ((a1, pd1), s, (desired <=? replProt a1) && (desired <=? replWant a1)).
+
+Fixpoint pass (distinct : bool) (c desired : nat) (ap : acc2) (done : bool) (l : list slot) : acc2 * bool * list slot :=
+  match l with
+  | [] => (ap, done, [])
+  | s :: r =>
+    if done then (ap, done, l)
+    else if distinct && mem (msrv (smnt s)) (wantSrv (fst ap)) then
+      let '(ap', dn, r') := pass distinct c desired ap done r in (ap', dn, s :: r')
+    else
+      let '(ap1, s1, d1) := try_slot c desired ap s in
+      let '(ap', dn, r') := pass distinct c desired ap1 d1 r in (ap', dn, s1 :: r')
+  end.
+
+(* the `safe` loop with safeDev *)
+Fixpoint safe_count (c desired : nat) (l : list slot) (safe : nat) (sd : list nat) : nat :=
+  match l with
+  | [] => safe
+  | s :: r =>
+    if negb (has s) || negb (inclass dflt c (smnt s)) || (nz (dev (smnt s)) && mem (dev (smnt s)) sd)
+    then safe_count c desired r safe sd
+    else let safe' := safe + mrepl (smnt s) in
+         let sd' := if nz (dev (smnt s)) then dev (smnt s) :: sd else sd in
+         if desired <=? safe' then safe' else safe_count c desired r safe' sd'
+  end.
+
+Definition protect_devices (wd pd : list nat) (l : list slot) (uns : list nat) : list nat :=
+  fold_left (fun u s => match srepl s with
+                        | Some mt => if nz (dev (smnt s)) && (mem (dev (smnt s)) wd || mem (dev (smnt s)) pd)
+                                     then add mt u else u
+                        | None => u end) l uns.
+
+Definition do_class (c desired : nat) (st : cstate) : cstate :=
+  let '(sl, uns, under) := st in
+  if desired =? 0 then st else
+  let sorted := isort c sl in
+  let '(ap1, d1, l1) := pass true c desired (acc0 uns, []) false sorted in
+  let '(ap2, _, l2) := pass false c desired ap1 d1 l1 in
+  let under' := if under then true else safe_count c desired l2 0 [] <? desired in
+  (l2, protect_devices (wantDev (fst ap2)) (snd ap2) l2 (unsafe (fst ap2)), under').
+
+Definition unoffered_class (classes : list nat) (desired : list (nat * nat)) : bool :=
+  existsb (fun kd => (0 <? snd kd) && negb (mem (fst kd) classes)) desired.
+
+Definition run_classes (classes : list nat) (desired : list (nat * nat)) (sl0 : list slot) : cstate :=
+  fold_left (fun st c => do_class c (lookup desired c) st) classes (sl0, [], unoffered_class classes desired).
+
+Definition final_slots (mounts : list mnt) (replicas : list (nat * nat)) (classes : list nat)
+           (desired : list (nat * nat)) : list slot :=
+  let '(sl, uns, under) := run_classes classes desired (map (mkslot replicas) mounts) in
+  map (widen under uns) sl.
+
 Definition balance_block (mounts allmounts : list mnt) (replicas : list (nat * nat)) (classes : list nat)
            (desired : list (nat * nat)) : list change * bool :=
   let sl := final_slots mounts replicas classes desired in
@@ -203,15 +211,10 @@ Definition balance_block (mounts allmounts : list mnt) (replicas : list (nat * n
               | (m0, _) :: _ => match find (fun m => mid m =? m0) allmounts with Some m => msrv m | None => 0 end
               | [] => 0 end in
   (flat_map (emit norepl from) sl,
-   existsb (fun s => negb (has s) && swant s && norepl) sl).
-
-(* the `underreplicated` flag as balanceBlock computes it *)
-Definition under_flag (mounts : list mnt) (replicas : list (nat * nat)) (classes : list nat)
-           (desired : list (nat * nat)) : bool :=
-  snd (run_classes classes desired (map (mkslot replicas) mounts)).
+   existsb (fun s => negb (has s) && swant s && norepl) sl ||
+   (norepl && existsb (fun kd => 0 <? snd kd) desired)).
 End Block.
 
-(* cleanupMounts; setupLookupTables; balanceBlock *)
 Definition balance (dflt : nat) (rank devrank : nat -> nat) (minMtime : nat)
            (raw : list mnt) (sro : list nat) (replicas : list (nat * nat)) (desired : list (nat * nat))
   : list change * bool :=
